@@ -21,7 +21,8 @@ META = {
             "to the operator card; three -> the given cards and output; otherwise a usage error. The solver called is the "
             "library's `eko.solve` (the managed runner), exactly once, with the cards loaded from those two files by the same "
             "loaders the library uses (TheoryCard/OperatorCard.from_dict of the safely loaded YAML), and nothing else of the "
-            "command writes or computes.",
+            "command writes or computes."
+            " Two invocations of `run` in one evaluator with the card contents changed in between solve the cards of the second moment (memoising decorators modelled).",
     "note": "That the files written load back to equal cards is C40's normaliser/reader agreement; equality of operators follows "
             "from calling the same solver on the same cards.",
     "technique": "option/consumer contradiction rules on click declarations + partial evaluation of the commands (argument forms with symbolic paths; example command on a model file system)",
